@@ -174,7 +174,7 @@ LapEofAllowed(s,F,k,e) ==
   \/ (e.rs0 < STREAMSET /\ e.tell = s.pos /\ s.pos = F.total)                      \* no decode state, no link, and at the end of the whole stream
   \/ (e.rs0 = STREAMSET /\ e.tell = s.pos /\ "cur0" \in DOMAIN e /\ e.cur0 + 1 \in 1..F.nl
       /\ s.pos = F.links[e.cur0 + 1].start + F.links[e.cur0 + 1].N)               \* no decode state and at the end of the (logical) stream the handle is in - the same position is the START of the next link, where there is plenty to lap
-  \/ (e.rs0 < INITSET /\ s.pos < 0 /\ "off0" \in DOMAIN e /\ e.off0 >= F.len)     \* no decode state, position unknown (after a failed seek), byte cursor at the end of the physical stream
+  \/ (e.rs0 < INITSET /\ s.pos < 0 /\ (("off0" \in DOMAIN e /\ e.off0 >= F.len) \/ e.off >= F.len - 26))     \* no decode state, position unknown (after a failed seek), byte cursor at the end of the physical stream - or nothing of the stream between it and the end (the call read up to there; a multiplexed stream may trail ours)
   \/ (LandsOK(s,F,k,e) /\ IF e.rs >= STREAMSET /\ e.cur + 1 \in 1..F.nl
                            THEN e.tell = F.links[e.cur + 1].start + F.links[e.cur + 1].N
                            ELSE e.tell = F.total)                                  \* sought, and no audio follows the target in the link the handle is in now
